@@ -1,7 +1,8 @@
 /* C04 / C03, instruction-level leg of the REAL DTD runtime (E4 leg 4 = E1/cosched applied to insert vs complete).
  *
  * One worker process = one parsec_init(k) context (k = 2 or 3 execution streams) with a trivial harness-owned
- * scheduler module (FIFO array, one explicit scheduling point per schedule()/select()).  The k-1 threads created
+ * scheduler module (FIFO array, one explicit scheduling point per schedule()/select(); a writer refused with AGAIN is
+ * offered again when the copies it writes have no reader left).  The k-1 threads created
  * by parsec_init stay parked at the context barrier of the coordinator process and do not exist in the forked
  * cosched workers; the controlled threads of cs_run borrow context->virtual_processes[0]->execution_streams[i].
  *
@@ -12,10 +13,11 @@
  *            __parsec_task_progress until the termination detector fires);
  *   thread i (es i, "worker"):  loop { select from the harness queue ; the real __parsec_task_progress } until the
  *            inserter's wait has returned.
- * Scheduling points: every instrumented access of libparsec to the tiles (last_user, last_writer, locks, reference
- * count), to data_copy->readers, to the DTD task descriptors (flow_count, parent/desc/flow records, data[] pairs,
- * reference count; registered when the task enters the real parsec_insert_dtd_task / parsec_insert_dtd_flush_task,
- * which the executable interposes), plus one point per queue operation and one inside every body.
+ * Scheduling points: every instrumented access of libparsec to the tiles' last_user / last_writer records (incl. the lock
+ * word; accesses by the HOLDER of the tile lock are not points) and reference count, to data_copy->readers, to the DTD task
+ * descriptors (flow_count, per flow the parent/desc links and the flags word, the data[] pairs, the reference count;
+ * registered when the task enters the real parsec_insert_dtd_task / parsec_insert_dtd_flush_task, which the executable
+ * interposes), plus one point per queue operation and one inside every body. See harness/C04/NOTES.md.
  * Oracle: the C04 oracle (per-tile writers_in/readers_in, enter/exit stamps) and the C03 oracle (observations and final
  * values equal the sequential reference) of engine/rt/dtd_driver.h.
  */
@@ -88,7 +90,8 @@ static inline NOSAN wreg_t *w_find(uintptr_t a, int size)
 /* ------------------------------------------------------------------ per-execution bookkeeping */
 static int in_walk[8], in_insert[8]; static parsec_dtd_task_t *cur_insert[8];
 static long pt_thread[8]; static long hits_local[RC_N]; static int32_t q_word;   /* watched word standing for the harness queue */
-static struct { int open, by; parsec_dtd_task_t *reader; } win[DD_MAXTILES];
+#define NWIN 4
+static struct { int open, by; parsec_dtd_task_t *reader; } win[DD_MAXTILES][NWIN];   /* per tile: readers published as dead chain end and not yet counted */
 static struct { int hit, tile; parsec_dtd_task_t *reader, *inserted; int inserted_is_writer; } f5;
 static struct { uintptr_t addr; int n; } spin[8];
 static long n_again, n_spinwait, n_suppressed; static int lock_by[DD_MAXTILES]; static int O_csred = 1;
@@ -108,6 +111,13 @@ static void task_label(parsec_dtd_task_t *t, char *b, size_t n)
     else if (!strcmp(cn, "parsec_dtd_data_flush")) snprintf(b, n, "flush(%c)", 'a' + (int)FLOW_OF(t, 0)->tile->key);
     else if (!strcmp(cn, "Fake_FIRST_OUT")) snprintf(b, n, "first(%c)", 'a' + (int)FLOW_OF(t, 0)->tile->key);
     else snprintf(b, n, "%s", cn);
+}
+
+static NOSAN int writes_tile(parsec_dtd_task_t *t, parsec_dtd_tile_t *tl)
+{
+    if (!t) return 0;
+    for (int f = 0; f < t->super.task_class->nb_flows; f++) if (FLOW_OF(t, f)->tile == tl && (FLOW_OF(t, f)->op_type & PARSEC_OUTPUT)) return 1;
+    return 0;
 }
 
 /* ------------------------------------------------------------------ trace (replay only): one line per scheduling point, printed at once
@@ -148,9 +158,12 @@ static NOSAN void il_filter(int kind, void *addr, int size)
         /* F5 window bookkeeping (attribution predicate only; never changes the schedule) */
         if ((uintptr_t)addr == (uintptr_t)&tl->last_user.alive) {
             if (kind == VTSAN_WRITE && in_walk[self] > 0 && tl->last_user.task != NULL && (tl->last_user.op_type & PARSEC_GET_OP_TYPE) == PARSEC_INPUT) {
-                win[r->tile].open = 1; win[r->tile].by = self; win[r->tile].reader = tl->last_user.task;
-            } else if (kind == VTSAN_READ && in_insert[self] > 0 && win[r->tile].open && win[r->tile].by != self && !f5.hit) {
-                f5.hit = 1; f5.tile = r->tile; f5.reader = win[r->tile].reader; f5.inserted = cur_insert[self];
+                for (int w = 0; w < NWIN; w++) if (!win[r->tile][w].open) { win[r->tile][w].open = 1; win[r->tile][w].by = self; win[r->tile][w].reader = tl->last_user.task; break; }
+            } else if (kind == VTSAN_READ && in_insert[self] > 0 && !f5.hit && writes_tile(cur_insert[self], tl)) {
+                /* a WRITER of this tile (program writer or flush task) is being inserted while a reader is published but not counted
+                 * by another thread's walk; readers inserted in the window are harmless by themselves and are not recorded */
+                for (int w = 0; w < NWIN; w++) if (win[r->tile][w].open && win[r->tile][w].by != self) {
+                    f5.hit = 1; f5.tile = r->tile; f5.reader = win[r->tile][w].reader; f5.inserted = cur_insert[self]; break; }
             }
         }
         if ((uintptr_t)addr == (uintptr_t)lockw) {
@@ -164,7 +177,9 @@ static NOSAN void il_filter(int kind, void *addr, int size)
             if (O_trace) { void *bt[5]; int n = backtrace(bt, 5); tev_add(self, kind, r->cls, r->tile, (int)((uintptr_t)addr - r->lo), bt, n, "holds the tile lock: not a point"); }
             return;
         }
-    } else if (r->cls == RC_READERS && kind == VTSAN_ATOMIC_RMW && win[r->tile].open && win[r->tile].by == self) close_win = r->tile;
+    } else if (r->cls == RC_READERS && kind == VTSAN_ATOMIC_RMW) {
+        for (int w = 0; w < NWIN; w++) if (win[r->tile][w].open && win[r->tile][w].by == self) close_win = r->tile * NWIN + w;     /* this thread's walk counts its reader now */
+    }
     /* a thread that keeps re-reading one watched location (the two unhooked spin loops of overlap_strategies.c wait
      * for DESC_OF(task)->task to be set by the inserting thread) cannot progress before another thread writes */
     if (kind == VTSAN_READ && spin[self].addr == (uintptr_t)addr) {
@@ -178,7 +193,7 @@ static NOSAN void il_filter(int kind, void *addr, int size)
     il_real_cb(kind, addr, size);
     /* back on the CPU, the access itself executes next and nothing can intervene before it */
     if (lock_rmw && *lockw == 0) lock_by[r->tile] = self;       /* this CAS(0,1) will succeed */
-    if (close_win >= 0) win[close_win].open = 0;                /* the reader is counted now */
+    if (close_win >= 0) win[close_win / NWIN][close_win % NWIN].open = 0;                /* the reader is counted now */
 }
 static void il_enter_thread(int i)
 {
@@ -363,16 +378,14 @@ static void worker(void *arg)
 static void fail_or_known(const dd_prog_t *p, const char *msg)
 {
     /* attribution to finding F5: ONLY when (1) this very execution contains the window - an inserting thread read
-     * tile->last_user.alive == NOT_ALIVE of tile x after a chain walk of ANOTHER thread published reader R as the dead end
-     * of the chain and before that walk counted R in data_copy->readers -, (2) the task being inserted was a writer of x
-     * (program writer or the flush task) and (3) the failing fact is about R on x: R observed a value of x that differs
+     * tile->last_user.alive of tile x after a chain walk of ANOTHER thread published reader R as the dead end
+     * of the chain and before that walk counted R in data_copy->readers -, (2) the task being inserted at that moment was a
+     * writer of x (program writer or the flush task; readers inserted in the window are not enough) and (3) the failing fact is about R on x: R observed a value of x that differs
      * from the reference, or a writer of x inserted after R did not wait for R (stamps / in-flight counters). */
     int attributed = 0; char why[256] = "";
     if (f5.hit) {
         int R = tid_of(f5.reader), x = f5.tile, W = tid_of(f5.inserted);
-        int w_is_writer = (W < 0);   /* flush task and Fake_FIRST_OUT are INOUT */
-        if (W >= 0) for (int k = 0; k < p->t[W].np; k++) if (p->t[W].tile[k] == x && p->t[W].mode[k] != DD_R) w_is_writer = 1;
-        if (R >= 0 && w_is_writer) {
+        if (R >= 0) {                /* f5.inserted writes x (checked when the hit was recorded) */
             dd_ref_t ref; dd_reference(p, &ref); int fact = 0;
             for (int k = 0; k < p->t[R].np; k++) if (p->t[R].tile[k] == x && p->t[R].mode[k] == DD_R && dd_log[R].count == 1 && dd_log[R].seen[k] != ref.seen[R][k]) fact = 1;
             if (dd_log[R].conflict & (4 | 8)) fact = 1;
